@@ -12,7 +12,7 @@ use std::sync::{Arc, RwLock};
 
 use self::prioritize_chess_moves::sort_chess_moves;
 
-type SearchNode = (u64, i16, i16, u8, bool); // position_hash, alpha, beta, depth, maximizing_player
+type SearchNode = (u64, i16, i16, u8, bool, u8); // position_hash, alpha, beta, depth, maximizing_player, halfmove_clock (when it matters)
 type SearchResult = i16; // best_score
 
 mod prioritize_chess_moves;
@@ -193,12 +193,18 @@ fn alpha_beta_minimax(
     beta: i16,
     maximizing_player: bool,
 ) -> Result<i16, SearchError> {
+    // The position hash does not cover the halfmove clock, but the score of a subtree
+    // depends on it as soon as the move-count draw (clock reaching 100) is within the
+    // remaining depth. Only then is the clock made part of the key.
+    let halfmove_clock = board.halfmove_clock();
+    let clock_matters = halfmove_clock as u16 + depth as u16 >= 100;
     let search_node = (
         board.current_position_hash(),
         alpha,
         beta,
         depth,
         maximizing_player,
+        if clock_matters { halfmove_clock } else { 0 },
     );
     if let Some(score) = check_cache(context, search_node) {
         trace!(
